@@ -69,7 +69,7 @@ def sched_runs(res, work, tier, seed, clauses, parts=5, only=None, matcher=None,
     other = {}
     for d, meta, fails, r in outs:
         res.evaluations += meta["execs"]
-        res.extra.setdefault("scenarios", []).extend(meta["scenarios"])
+        res.extra.setdefault("scenarios", []).extend(meta.get("scenarios") or [])
         res.extra["steps"] = res.extra.get("steps", 0) + meta["steps"]
         res.distinct += meta["distinct"]
         if meta.get("stuck"):
